@@ -75,15 +75,15 @@ def engine_digest():
     return h.hexdigest()
 
 
-def gen_target(ctx, tgt):
-    """obligations generated for one real function (all its contracts), through a content-addressed cache:
+def gen_target(ctx, tgt, unit=None):
+    """obligations generated for one real function (all its contracts; or one (contract, instance) unit of it), through a content-addressed cache:
     the key is the digest of /repo's current sources + the contracts + the engine, so a changed tree is
     always re-read and re-verified"""
     import pickle
     from .obligation import Collector as _Col
     key = '%s-%s-%s' % (ctx.repo.digest[:20], ctx.specs.digest[:20], ctx.engine_digest[:20])
     cdir = os.path.join(ROOT, '.cache', key)
-    path = os.path.join(cdir, re.sub(r'[^A-Za-z0-9_.]+', '_', tgt) + '.pkl')
+    path = unit_path(cdir, tgt, unit)
     if os.path.exists(path) and not os.environ.get('PYVC_NOCACHE'):
         try:
             with open(path, 'rb') as f:
@@ -128,7 +128,7 @@ def gen_target(ctx, tgt):
     V = Verifier(ctx.repo, ctx.specs, sub)
     V.hooks = list(ctx.V.hooks)
     try:
-        V.verify_target(tgt, None)
+        V.verify_target(tgt, None, only=unit)
     except Exception as e:      # engine failure on one target -> ungenerated, not a violation
         props = sorted(set().union(*[c.all_props for c in ctx.specs.contracts.get(tgt, [])]) or [ctx.pid])
         sub.ungenerated(props, tgt, 'engine', 'engine error: %s: %s' % (type(e).__name__, e))
@@ -153,13 +153,20 @@ def gen_target(ctx, tgt):
     return data
 
 
+def unit_path(cdir, tgt, unit):
+    nm = re.sub(r'[^A-Za-z0-9_.]+', '_', tgt)
+    if unit is not None:
+        nm += '@' + re.sub(r'[^A-Za-z0-9_.]+', '_', '%s.%s' % unit)
+    return os.path.join(cdir, nm + '.pkl')
+
+
 def _gen_worker(arg):
-    pid, tier, seed, tgt = arg
+    pid, tier, seed, tgt, unit = arg
 
     class A:
         verbose = False
     ctx = RunCtx(pid, tier, seed, A())
-    gen_target(ctx, tgt)
+    gen_target(ctx, tgt, unit)
     return tgt
 
 
@@ -169,18 +176,25 @@ def run_property(pid, tier, seed, args):
     col = ctx.col
     # 1. contract obligations (generated per target, in parallel, cached by content digest)
     targets = [tgt for tgt, cons in ctx.specs.contracts.items() if any(pid in c.all_props for c in cons)]
+    # one piece of work per (target, contract, arithmetic instance): generated in parallel, cached by content digest
+    units = []
+    for tgt in targets:
+        us = ctx.V.units_of(tgt)
+        units += [(tgt, u) for u in us] if len(us) > 1 else [(tgt, None)]
     missing = []
     key = '%s-%s-%s' % (ctx.repo.digest[:20], ctx.specs.digest[:20], ctx.engine_digest[:20])
-    for tgt in targets:
-        path = os.path.join(ROOT, '.cache', key, re.sub(r'[^A-Za-z0-9_.]+', '_', tgt) + '.pkl')
-        if not os.path.exists(path) or os.environ.get('PYVC_NOCACHE'):
-            missing.append(tgt)
+    cdir = os.path.join(ROOT, '.cache', key)
+    for tgt, u in units:
+        if not os.path.exists(unit_path(cdir, tgt, u)) or os.environ.get('PYVC_NOCACHE'):
+            missing.append((tgt, u))
     if len(missing) > 1:
         import multiprocessing as mp
+        # the heavy ones first (rule bodies), so that the pool is not left waiting for a late straggler
+        missing.sort(key=lambda x: (0 if x[0].endswith('.count') else 1, x[0]))
         with mp.get_context('fork').Pool(min(16, len(missing))) as pool:
-            pool.map(_gen_worker, [(pid, tier, seed, t) for t in missing], chunksize=1)
-    for tgt in targets:
-        data = gen_target(ctx, tgt)
+            pool.map(_gen_worker, [(pid, tier, seed, t, u) for t, u in missing], chunksize=1)
+    for tgt, u in units:
+        data = gen_target(ctx, tgt, u)
         for o in data['obs']:
             col.obs.append(o)
         col.functions |= data['functions']
